@@ -41,8 +41,21 @@ def main():
     try:
         demo_src = os.path.join(sdir, "demo_test.go")
         demo_dst = os.path.join(wt, dest, "zz_seed_demo_test.go")
+        demo_dir = os.path.join(sdir, "demo")  # alternative form: a stand-alone program with its own go.mod
 
         def demo():
+            if not os.path.exists(demo_src) and os.path.isdir(demo_dir):
+                dd = os.path.join(wt, "zz_seed_demo_prog")
+                shutil.rmtree(dd, ignore_errors=True)
+                shutil.copytree(demo_dir, dd)
+                gm = open(os.path.join(dd, "go.mod")).read()
+                gm = re.sub(r"(replace\s+github.com/b2broker/simplefix-go\s*=>\s*)\S+", r"\g<1>" + wt, gm)
+                open(os.path.join(dd, "go.mod"), "w").write(gm)
+                if os.path.exists(os.path.join(wt, "go.sum")):
+                    shutil.copy(os.path.join(wt, "go.sum"), os.path.join(dd, "go.sum"))
+                rc, out = sh("go run .", cwd=dd, timeout=900)
+                shutil.rmtree(dd, ignore_errors=True)
+                return rc, out
             shutil.copy(demo_src, demo_dst)
             rc, out = sh("go test %s -vet=off -count=1 -run '%s' %s" % (os.environ.get("SEED_TEST_FLAGS", ""), runre, pkg), cwd=wt, timeout=900)
             os.remove(demo_dst)
@@ -96,7 +109,11 @@ def finish(res, sid, sdir, patch_now):
     elif not same:
         shutil.copy(os.path.join(sdir, "patch.diff"), os.path.join(d, "patch.diff"))
     if not same:
-        shutil.copy(os.path.join(sdir, "demo_test.go"), os.path.join(d, "demo_test.go"))
+        if os.path.exists(os.path.join(sdir, "demo_test.go")):
+            shutil.copy(os.path.join(sdir, "demo_test.go"), os.path.join(d, "demo_test.go"))
+        elif os.path.isdir(os.path.join(sdir, "demo")):
+            shutil.rmtree(os.path.join(d, "demo"), ignore_errors=True)
+            shutil.copytree(os.path.join(sdir, "demo"), os.path.join(d, "demo"))
     meta = {}
     try:
         meta = json.load(open(os.path.join(sdir, "meta.json")))
